@@ -365,6 +365,7 @@ func runMain(args []string) int {
 	workers := fs.Int("workers", 0, "parallel children (default min(cores,16))")
 	keep := fs.Bool("keep", false, "keep the work directory (inputs, logs)")
 	noShrink := fs.Bool("noshrink", false, "do not shrink failing inputs")
+	fs.IntVar(&longInput, "shortlen", longInput, "inputs longer than this get a short record (DOMAIN 0), except every 10th")
 	if err := fs.Parse(args); err != nil {
 		return 2
 	}
